@@ -436,6 +436,13 @@ class Enc:
                 self.wire(x, refs, text=(ws[1] == "unicode"), stack=stack + (objid,))
             self.close(oc)
             return objid
+        elif k == "wc":
+            # OPEN copyable <typename> child.. CLOSE  (children: attribute names and values, whatever they are)
+            oc, objid = self.open(b"copyable", ws[1].encode())
+            for x in ws[2]:
+                self.wire(x, refs, text=False, stack=stack + (objid,))
+            self.close(oc)
+            return objid
         elif k in ("wp", "wq"):
             oc, _ = self.open(b"reference")
             self.tok(tokens.INT, stack[len(stack) - 1 - ws[1]])
@@ -641,6 +648,42 @@ class World:
         self.tb.dataReceived(data)
         E.turn()
         return data
+
+
+def call_seq_trial(argnames, cons, children_fn):
+    """a hand-built OPEN call whose CHILDREN are whatever children_fn(clid, clid2) returns: wire specs, or
+    ["wa", count, items] for an `arguments` sequence (count: int / None / wire spec).  clid: the World's target (method m
+    with the given schema), clid2: a second exported object WITHOUT RemoteInterface.  -> (res, world, children)"""
+    from foolscap import call as callmod
+    w = World(argnames, cons, None, vocab=1)
+    t2 = Target(["m"])
+    w.rr2, clid2 = export(w.tb, w.cb, t2)         # (keep the reference: dropping it sends a decref call that takes reqID 1)
+    w.t2 = t2
+    req = callmod.PendingRequest(1, None, None, "m")
+    w.cb.addRequest(req)
+    res = []
+    req.deferred.addBoth(res.append)
+    children = children_fn(w.clid, clid2)
+    enc = Enc()
+    enc.objects = w.tb.objectCounter
+    oc, _ = enc.open(b"call")
+    for ch in children:
+        if ch[0] == "wa":
+            oc2, _ = enc.open(b"arguments")
+            if isinstance(ch[1], int):
+                enc.tok(tokens.INT, ch[1])
+            elif ch[1] is not None:
+                enc.wire(ch[1])
+            for x in ch[2]:
+                enc.wire(x)
+            enc.close(oc2)
+        else:
+            enc.wire(ch)
+    enc.close(oc)
+    w.tb.dataReceived(enc.bytes())
+    E.turn()
+    w.clid2 = clid2
+    return res, w, children
 
 
 def is_remote_failure(r):
